@@ -20,6 +20,7 @@ import (
 	"fmt"
 	"net"
 	"os"
+	"strings"
 	"sync/atomic"
 	"time"
 
@@ -153,15 +154,46 @@ func (c *vf10Client) close() {
 	detrand.Real()
 }
 
-// wait blocks until the client goroutine is parked with nothing deliverable or
-// has finished.  A goroutine that is neither after the 20 s watchdog gets 60 s
-// more before it is called a wedge.  Panics and the buffer gauges are checked
-// at every such point.
-func (c *vf10Client) wait() string {
-	if err := c.n.WaitQuiescent(wire.A); err != nil {
-		if err2 := c.n.WaitQuiescentFor(vf10WedgeExtra, wire.A); err2 != nil {
-			return fmt.Sprintf("VIOL[c10-scramblesuit-wedge]: the client neither returns nor waits for input (consumed %d of %d released bytes): %v", c.n.Consumed(wire.B), c.n.Released(wire.B), err2)
+// quiesce blocks until the client goroutine is parked with nothing deliverable
+// or has finished.  A goroutine that is neither after the 20 s watchdog gets
+// 60 s more before it is called a wedge.  A spin is recognised earlier by
+// counting, not by time: more than a million Read calls on the connection
+// without a single byte consumed and without returning.
+func (c *vf10Client) quiesce() string {
+	var err error
+	for waited := time.Duration(0); waited < wire.WatchdogDefault+vf10WedgeExtra; waited += 2 * time.Second {
+		r0, c0 := c.n.Reads(wire.A), c.n.Consumed(wire.B)
+		if err = c.n.WaitQuiescentFor(2*time.Second, wire.A); err == nil {
+			return ""
 		}
+		if dr := c.n.Reads(wire.A) - r0; dr > 1000000 && c.n.Consumed(wire.B) == c0 {
+			return fmt.Sprintf("VIOL[c10-scramblesuit-spin]: the client called Read %d times on the connection in 2 s without consuming a byte and without returning (consumed %d of %d released bytes)\n%s",
+				dr, c0, c.n.Released(wire.B), wire.Stacks())
+		}
+	}
+	return fmt.Sprintf("VIOL[c10-scramblesuit-wedge]: the client neither returns nor waits for input (consumed %d of %d released bytes): %v", c.n.Consumed(wire.B), c.n.Released(wire.B), err)
+}
+
+// vf10Unstoppable reports whether msg is a verdict after which the client
+// goroutine may still be running and cannot be stopped (it ignores errors of
+// the closed connection): the process must not go on to further cases, they
+// would compete with the spinning goroutines for the CPU.
+func vf10Unstoppable(msg string) bool {
+	return strings.Contains(msg, "VIOL[c10-scramblesuit-spin]") || strings.Contains(msg, "VIOL[c10-scramblesuit-wedge]")
+}
+
+// vf10Abort ends the test process with a failure verdict.
+func vf10Abort(test, msg string) {
+	fmt.Printf("--- FAIL: %s (the client goroutine cannot be stopped; test process aborted, no shrinking)\n    %s\nFAIL\n", test, msg)
+	ev.Flush()
+	os.Exit(1)
+}
+
+// wait is quiesce plus the checks made at every such point: panics and the
+// buffer gauges.
+func (c *vf10Client) wait() string {
+	if msg := c.quiesce(); msg != "" {
+		return msg
 	}
 	if p, st := c.ep.Panic(); p != nil {
 		return fmt.Sprintf("VIOL[c10-scramblesuit-panic]: %v\n%s", p, st)
